@@ -1,3 +1,4 @@
+import LalrpopModel.Props.LRTermThms
 import LalrpopModel.Props.LRSoundThms
 import LalrpopModel.Props.LRCompleteThms
 import LalrpopModel.Props.LRGenericThms
@@ -11,5 +12,5 @@ The theorems deciding this property (audited by `checks/c08.py` with `#print axi
 * `drive_complete` + `actions_postorder_once`: on a sentence the run ends after pulling `|w|+1` items and exactly
   `nodes(t)+1` reductions (a step bound for accepted inputs).
 * lexer: Props/C08Lex (`lexer_progress`, `no_empty_token`).
-* termination on rejected inputs (`termination_partial`): explored by the step-budget search, not proven.
+* termination: `driver_terminates`, `driver_terminates_recovery`, `parse_decides`, `accept_steps_exact`, `recovery_progress` (Props/LRTermThms) under the per-table executable check V7 (`validate3`).
 -/
